@@ -2,7 +2,7 @@ from vdriver import U
 
 PROPERTY = {
     "level": "proof",
-    "explanation": "UNBOUNDED (counted): every a_list primitive on an arbitrary heap - a_list_add_/a_list_del_ against DFCC function contracts with assigns frame, the other families against those contracts (replace), swap over the bodies; edges created/removed exactly as specified, all other link fields unchanged. BOUNDED (not counted): intrusive list / singly linked list primitives and every queue operation executed on symbolic small structures (rings of <= 3 nodes per list, every position and aliasing pattern; queues of <= 3 elements with a symbolic recycle pool) and compared with abstract sequences; forward walk, backward links and tail designation checked after every operation; allocator model may fail at every request",
+    "explanation": "UNBOUNDED (counted): every a_list primitive on an arbitrary heap - a_list_add_/a_list_del_ against DFCC function contracts with assigns frame, the other families against those contracts (replace), swap over the bodies; edges created/removed exactly as specified, all other link fields unchanged; every a_slist primitive with the local tail invariant (null link <=> tail). BOUNDED (not counted): intrusive list / singly linked list primitives and every queue operation executed on symbolic small structures (rings of <= 3 nodes per list, every position and aliasing pattern; queues of <= 3 elements with a symbolic recycle pool) and compared with abstract sequences; forward walk, backward links and tail designation checked after every operation; allocator model may fail at every request",
     "trusted_base": ["cbmc 6.11.0 (SAT back end)", "allocator model verif_alloc"],
     "assumptions": [
         "induction over the operation history is a paper step (every operation is verified from an arbitrary well-formed structure of the bounded size)",
@@ -40,6 +40,10 @@ UNITS += [
     W("rot", ["a_list_rot_next", "a_list_rot_prev"], replace=CORE, key=["rot_next: the node"]),
     # two replaced calls of the same contract on one path come out contradictory with this goto-instrument (canary unreachable): swap is proved over the bodies
     W("swap", ["a_list_swap_", "a_list_swap_node", "a_list_add_", "a_list_link"], key=["swap: each section"]),
+]
+UNITS += [
+    W("slist", ["a_slist_add", "a_slist_add_head", "a_slist_add_tail", "a_slist_del", "a_slist_del_head", "a_slist_rot", "a_slist_link"], key=["slist add: the tail moves"]),
+    W("slist_mov", ["a_slist_mov", "a_slist_link"], key=["slist mov: the whole chain"]),
 ]
 def Q(name, fns, **kw):
     kw.setdefault("unwindset", [("verif_alloc.0", 34), ("a_que_drop.0", 5), ("a_que_drop.1", 7), ("a_que_setz.0", 7), ("a_que_dtor.0", 7), ("a_que_dtor.1", 5), ("a_que_dtor.2", 7), ("a_que_dtor.3", 5)])
